@@ -182,7 +182,7 @@ class Machine:
         self.release = release           # release profile: integer overflow wraps instead of panicking
         self.domains = {}                # z3 const name -> finite list of python strings (for fork-on-value)
         self.char_ops_forbidden = False  # layer-B harnesses: a character-level look at a symbolic name breaks data independence
-        self.char_splits = 0
+        self.char_splits = 0; self.probe_domains = {}; self.probe_splits = 0
         self.fuel0 = fuel; self.fuel = fuel
         self.effects = []                # recorded environment effects (C12)
         self.env_model = {}              # environment stubs (C12)
@@ -349,6 +349,13 @@ class Machine:
         q = z3.simplify(p)
         if z3.is_string_value(q): return zstr(q)
         dom = self.domains.get(str(p)) if z3.is_const(p) else None
+        if dom is None and z3.is_const(p) and str(p) in self.probe_domains:
+            # the code looks INTO a string the harness left unconstrained (e.g. an option value): from here on the claim for this atom is reduced to a
+            # probe set of values (reported as probe_splits); on the unchanged tree this never happens
+            dom = self.probe_domains[str(p)]; self.probe_splits += 1
+            for cand in dom:
+                if self.branch(p == z3.StringVal(cand)): return cand
+            raise Infeasible()
         if dom is None: raise Unsupported('character-level operation on unconstrained symbolic string %s' % p)
         if self.char_ops_forbidden:
             raise Unsupported('character-level operation on a name in a data-independent harness (%s)' % p)
@@ -589,6 +596,7 @@ class Machine:
         if name == 'to_string' and ty and ty in self.impls and '__fmt__' in self.impls[ty]:
             return RStr(self.display(recv))
         key = type(recv).__name__ if not isinstance(recv, (RStruct, REnum)) else ty
+        if isinstance(recv, bool): key = 'bool'
         f = BUILTIN_METHODS.get((key, name))
         if f is None: f = BUILTIN_METHODS.get(('*', name))
         if f is None: raise Unsupported('method %s on %s at %s' % (name, ty or type(recv).__name__, e.get('sp')))
@@ -907,6 +915,8 @@ def _args_parse(m):
     if f is None: raise Unsupported('Args::parse without environment model')
     return f(m)
 BUILTIN_FNS = {
+    ('Vec', 'with_capacity'): lambda m, n: RVec(), ('String', 'with_capacity'): lambda m, n: RStr(''), ('HashMap', 'with_capacity'): lambda m, n: RMap(), ('HashSet', 'with_capacity'): lambda m, n: RSet(),
+    ('VecDeque', 'with_capacity'): lambda m, n: RVec(), ('Vec', 'from'): lambda m, v: RVec(list(m.iterate(v))), ('Some', 'x'): None,
     ('Vec', 'new'): lambda m: RVec(), ('String', 'new'): lambda m: RStr(''), ('HashMap', 'new'): lambda m: RMap(), ('HashSet', 'new'): lambda m: RSet(),
     ('String', 'from'): lambda m, s: RStr(s.val if isinstance(s, RStr) else s), ('String', 'from_utf8'): _string_from_utf8,
     ('mem', 'discriminant'): lambda m, v: RDisc(v.enum, v.variant), ('VecDeque', 'new'): lambda m: RVec(),
@@ -1070,16 +1080,131 @@ def _trim(m, s_):
     if not v.isascii(): raise Unsupported('trim on non-ASCII')
     return RStr(v.strip(' \t\n\r\x0b\x0c'))
 # Unicode behaviour of char methods: python's tables agree with Rust's for the code points the conformance gate exercises
-# (ASCII, Latin-1 letters, Cyrillic).  Anything else is outside the modelled surface.
+# (ASCII, Latin-1, Latin Extended, IPA, spacing modifiers, combining marks, Cyrillic).  Greek (context-sensitive final sigma in str::to_lowercase)
+# and everything above U+0530 is outside the modelled surface.
 def _char_ok(c):
     o = ord(c)
-    if o < 0x250 or 0x400 <= o < 0x500: return c
+    if o < 0x300 or 0x400 <= o < 0x530: return c
     raise Unsupported('char U+%04X outside the modelled Unicode range' % o)
 def _is_alnum(m, c): c = _char_ok(c); return c.isalpha() or c.isnumeric()
 def _upper(m, c): return RIter(list(_char_ok(c).upper()))
 def _lower(m, c):
     c = _char_ok(c)
     return RIter(list(c.lower()))
+
+def _dedup(m, v):
+    out = []
+    for x in v.l:
+        if out and m.branch(m.eq(out[-1], x)): continue
+        out.append(x)
+    v.l[:] = out; return UNIT
+def _retain(m, v, f):
+    v.l[:] = [x for x in v.l if m.branch(m.call_value(f, [x]))]; return UNIT
+def _truncate(m, v, n):
+    if isinstance(n, int): del v.l[n:]; return UNIT
+    raise Unsupported('symbolic truncate')
+def _swap(m, v, i, j):
+    if max(i, j) >= len(v.l): raise PanicEx('index out of bounds')
+    v.l[i], v.l[j] = v.l[j], v.l[i]; return UNIT
+def _zip(m, it, o): return RIter([RTuple([a, b]) for a, b in zip(it.l[it.i:], m.iterate(o))])
+def _filter_map(m, it, f):
+    out = []
+    for x in it.l[it.i:]:
+        r = m.call_value(f, [x])
+        if r.variant == 'Some': out.append(r.p[0])
+    return RIter(out)
+def _flat_map(m, it, f):
+    out = []
+    for x in it.l[it.i:]: out.extend(m.iterate(m.call_value(f, [x])))
+    return RIter(out)
+def _fold(m, it, init, f):
+    acc = init
+    for x in it.l[it.i:]: acc = m.call_value(f, [acc, x])
+    return acc
+def _sum(m, it):
+    acc = 0
+    for x in it.l[it.i:]: acc = m.add(acc, x)
+    return acc
+def _last(m, it):
+    xs = it.l[it.i:]
+    return Some(xs[-1]) if xs else NONE()
+def _nth(m, it, n):
+    xs = it.l[it.i:]
+    if isinstance(n, int) and n < len(xs): it.i += n + 1; return Some(xs[n])
+    return NONE()
+def _take_while(m, it, f):
+    out = []
+    for x in it.l[it.i:]:
+        if not m.branch(m.call_value(f, [x])): break
+        out.append(x)
+    return RIter(out)
+def _skip_while(m, it, f):
+    xs = it.l[it.i:]; k = 0
+    while k < len(xs) and m.branch(m.call_value(f, [xs[k]])): k += 1
+    return RIter(xs[k:])
+def _by_key(m, it, f, want_max):
+    xs = it.l[it.i:]
+    if not xs: return NONE()
+    best = xs[0]; bk = m.call_value(f, [best])
+    for x in xs[1:]:
+        k = m.call_value(f, [x])
+        if want_max:
+            if not m.branch(m.lt(k, bk)): best, bk = x, k          # max_by_key returns the LAST maximal element
+        else:
+            if m.branch(m.lt(k, bk)): best, bk = x, k              # min_by_key returns the FIRST minimal element
+    return Some(best)
+def _and_then(m, o, f): return m.call_value(f, [o.p[0]]) if o.variant in ('Some', 'Ok') else o
+def _opt_filter(m, o, f): return o if (o.variant == 'Some' and m.branch(m.call_value(f, [o.p[0]]))) else NONE()
+def _map_or(m, o, d, f): return m.call_value(f, [o.p[0]]) if o.variant in ('Some', 'Ok') else d
+def _map_or_else(m, o, d, f): return m.call_value(f, [o.p[0]]) if o.variant in ('Some', 'Ok') else m.call_value(d, [])
+def _is_some_and(m, o, f): return o.variant == 'Some' and m.branch(m.call_value(f, [o.p[0]]))
+class REntry:
+    def __init__(self, mp, k): self.mp = mp; self.k = k
+def _entry(m, mp, k): return REntry(mp, k)
+def _or_insert_with(m, en, f):
+    for ent in en.mp.l:
+        if m.branch(m.eq(ent[0], en.k)): return ent[1]
+    v = m.call_value(f, []) if not isinstance(f, (RStr, RVec, RMap, RSet, int, bool, RStruct, REnum, RTuple)) else f
+    en.mp.l.append([en.k, v]); return v
+def _or_default(m, en):
+    raise Unsupported('entry().or_default() (value type unknown to the executor)')
+def _char_indices(m, s_):
+    v = m.cs(s_); out = []; off = 0
+    for c in v:
+        out.append(RTuple([off, c])); off += len(c.encode())
+    return RIter(out)
+def _rfind(m, s_, c):
+    v = m.cs(s_); i = v.rfind(_pat(m, c))
+    return Some(len(v[:i].encode())) if i >= 0 else NONE()
+def _split_once(m, s_, sep):
+    v = m.cs(s_); sp = _pat(m, sep); i = v.find(sp)
+    if i < 0: return NONE()
+    return Some(RTuple([RStr(v[:i]), RStr(v[i + len(sp):])]))
+def _strip_prefix(m, s_, pre):
+    v = m.cs(s_); p_ = _pat(m, pre)
+    return Some(RStr(v[len(p_):])) if v.startswith(p_) else NONE()
+def _strip_suffix(m, s_, suf):
+    v = m.cs(s_); p_ = _pat(m, suf)
+    return Some(RStr(v[:len(v) - len(p_)])) if (p_ == '' or v.endswith(p_)) else NONE()
+def _is_char_boundary(m, s_, i):
+    b = m.cs(s_).encode()
+    if not isinstance(i, int): raise Unsupported('symbolic index')
+    return i == len(b) or (i < len(b) and (b[i] & 0xC0) != 0x80)
+def _str_get(m, s_, r):
+    if not isinstance(r, RRange): raise Unsupported('str::get with non-range')
+    try:
+        hi = r.b if r.b is None or not r.inclusive else r.b + 1
+        return Some(m.slice_str(s_, r.a, hi))
+    except PanicEx: return NONE()
+def _trim_start(m, s_):
+    v = m.cs(s_)
+    if not v.isascii(): raise Unsupported('trim on non-ASCII')
+    return RStr(v.lstrip(' \t\n\r\x0b\x0c'))
+def _trim_end(m, s_):
+    v = m.cs(s_)
+    if not v.isascii(): raise Unsupported('trim on non-ASCII')
+    return RStr(v.rstrip(' \t\n\r\x0b\x0c'))
+
 BUILTIN_METHODS = {
     ('RVec', 'push'): lambda m, v, x: (v.l.append(x), UNIT)[1], ('RVec', 'push_back'): lambda m, v, x: (v.l.append(x), UNIT)[1],
     ('RVec', 'iter'): lambda m, v: RIter(v.l), ('RVec', 'iter_mut'): lambda m, v: RIter(v.l),
@@ -1094,7 +1219,35 @@ BUILTIN_METHODS = {
     ('RVec', 'sort_unstable_by_key'): _sort_by_key, ('RVec', 'sort_by_key'): _sort_by_key, ('RVec', 'sort'): _sort, ('RVec', 'sort_unstable'): _sort,
     ('RVec', 'reverse'): lambda m, v: (v.l.reverse(), UNIT)[1], ('RVec', 'extend'): lambda m, v, o: (v.l.extend(m.iterate(o)), UNIT)[1],
     ('RVec', 'append'): lambda m, v, o: (v.l.extend(o.l), o.l.clear(), UNIT)[2],
-    ('RVec', 'as_slice'): lambda m, v: v, ('RVec', 'as_ref'): lambda m, v: v,
+    ('RVec', 'as_slice'): lambda m, v: v, ('RVec', 'as_ref'): lambda m, v: v, ('RVec', 'as_mut_slice'): lambda m, v: v,
+    ('RVec', 'dedup'): _dedup, ('RVec', 'retain'): _retain, ('RVec', 'truncate'): _truncate, ('RVec', 'swap'): _swap,
+    ('RVec', 'extend_from_slice'): lambda m, v, o: (v.l.extend(deep(x) for x in o.l), UNIT)[1],
+    ('RVec', 'first_mut'): lambda m, v: Some(v.l[0]) if v.l else NONE(), ('RVec', 'last_mut'): lambda m, v: Some(v.l[-1]) if v.l else NONE(),
+    ('RVec', 'get_mut'): lambda m, v, i: Some(v.l[i]) if isinstance(i, int) and 0 <= i < len(v.l) else NONE(),
+    ('RVec', 'split_off'): lambda m, v, n: (RVec(v.l[n:]), v.l.__delitem__(slice(n, None)))[0],
+    ('RVec', 'drain'): lambda m, v, r: (RIter(v.l[r.a:(len(v.l) if r.b is None else r.b)]), v.l.__delitem__(slice(r.a, len(v.l) if r.b is None else r.b)))[0],
+    ('RVec', 'capacity'): lambda m, v: len(v.l), ('RVec', 'reserve'): lambda m, v, n: UNIT, ('RVec', 'shrink_to_fit'): lambda m, v: UNIT,
+    ('RVec', 'front'): lambda m, v: Some(v.l[0]) if v.l else NONE(), ('RVec', 'back'): lambda m, v: Some(v.l[-1]) if v.l else NONE(),
+    ('RIter', 'zip'): _zip, ('RIter', 'filter_map'): _filter_map, ('RIter', 'flat_map'): _flat_map, ('RIter', 'fold'): _fold, ('RIter', 'sum'): _sum,
+    ('RIter', 'last'): _last, ('RIter', 'nth'): _nth, ('RIter', 'take_while'): _take_while, ('RIter', 'skip_while'): _skip_while,
+    ('RIter', 'min_by_key'): lambda m, it, f: _by_key(m, it, f, False), ('RIter', 'max_by_key'): lambda m, it, f: _by_key(m, it, f, True),
+    ('RIter', 'peekable'): lambda m, it: it, ('RIter', 'by_ref'): lambda m, it: it, ('RIter', 'fuse'): lambda m, it: it,
+    ('RIter', 'flatten'): lambda m, it: RIter([y for x in it.l[it.i:] for y in (x.p if isinstance(x, REnum) and x.enum == 'Option' else m.iterate(x))]),
+    ('RIter', 'for_each'): lambda m, it, f: ([m.call_value(f, [x]) for x in it.l[it.i:]], UNIT)[1],
+    ('RIter', 'is_empty'): lambda m, it: len(it.l) - it.i == 0, ('RIter', 'len'): lambda m, it: len(it.l) - it.i,
+    ('Option', 'and_then'): _and_then, ('Result', 'and_then'): _and_then, ('Option', 'filter'): _opt_filter, ('Option', 'map_or'): _map_or, ('Result', 'map_or'): _map_or,
+    ('Option', 'map_or_else'): _map_or_else, ('Option', 'is_some_and'): _is_some_and,
+    ('Option', 'or'): lambda m, o, d: o if o.variant == 'Some' else d, ('Option', 'or_else'): lambda m, o, f: o if o.variant == 'Some' else m.call_value(f, []),
+    ('Option', 'iter'): lambda m, o: RIter(o.p), ('Option', 'into_iter'): lambda m, o: RIter(o.p),
+    ('Option', 'copied'): lambda m, o: o, ('Option', 'is_none_or'): lambda m, o, f: o.variant == 'None' or m.branch(m.call_value(f, [o.p[0]])),
+    ('RMap', 'entry'): _entry, ('REntry', 'or_insert'): _or_insert_with, ('REntry', 'or_insert_with'): _or_insert_with, ('REntry', 'or_default'): _or_default,
+    ('RMap', 'values_mut'): lambda m, mp: RIter([t.l[1] for t in _map_iter(m, mp).l]), ('RMap', 'clear'): lambda m, mp: (mp.l.clear(), UNIT)[1],
+    ('RSet', 'remove'): lambda m, st, x: any(m.branch(m.eq(x, y)) and (st.l.remove(y) or True) for y in list(st.l)),
+    ('RStr', 'char_indices'): _char_indices, ('RStr', 'rfind'): _rfind, ('RStr', 'split_once'): _split_once, ('RStr', 'strip_prefix'): _strip_prefix, ('RStr', 'strip_suffix'): _strip_suffix,
+    ('RStr', 'is_char_boundary'): _is_char_boundary, ('RStr', 'get'): _str_get, ('RStr', 'trim_start'): _trim_start, ('RStr', 'trim_end'): _trim_end,
+    ('RStr', 'eq_ignore_ascii_case'): lambda m, s_, t: m.cs(s_).lower() == m.cs(t).lower() if (m.cs(s_).isascii() and m.cs(t).isascii()) else (_ for _ in ()).throw(Unsupported('eq_ignore_ascii_case on non-ASCII')),
+    ('RStr', 'capacity'): lambda m, s_: 0, ('RStr', 'reserve'): lambda m, s_, n: UNIT, ('RStr', 'insert_str'): lambda m, s_, i, t: (setattr(s_, 'val', m.cs(s_).encode()[:i].decode() + m.cs(t) + m.cs(s_).encode()[i:].decode()), UNIT)[1],
+    ('RStr', 'is_ascii'): lambda m, s_: m.cs(s_).isascii(),
     ('RIter', 'rev'): lambda m, it: RIter(reversed(it.l[it.i:])), ('RIter', 'position'): _position, ('RIter', 'find'): _find,
     ('RIter', 'any'): _any, ('RIter', 'all'): _all, ('RIter', 'filter'): _filter, ('RIter', 'next'): _next,
     ('RIter', 'map'): lambda m, it, f: RIter([m.call_value(f, [x]) for x in it.l[it.i:]]), ('RIter', 'collect'): _collect,
